@@ -16,6 +16,7 @@ CONSTANTS NApps,      \* number of applications (app k >= 2 is mounted once, ins
 SegStr  == {<<"a">>, <<"b">>, <<"a", "b">>}
 \* alphabet with characters that sort below the separator `/` (configs replace SegStr by it: a sibling `a-b` of `a` comes
 \* before `a` in every byte order although `a-b` < `a/...`; a segment may not end with `-` or `.`)
+SegStrA == {<<"a">>}                         \* one static word: room for depth 3 (two consecutive params and a continuation below them)
 SegStrDash == {<<"a">>, <<"a", "-", "b">>, <<"a", ".", "b">>}
 Segs    == {SSeg(w) : w \in SegStr} \cup {PSeg}
 RoutesN == UNION {[1..n -> Segs] : n \in 0..MaxDepth}
